@@ -453,10 +453,12 @@ class SFileRT(_Seq, _Base):
             out["read"] = ["ok", canon_array(res)]
         except Exception as e:  # noqa
             out["read"] = ["err"] + _err(e)
+        if open(fn, "rb").read() != raw:             # frame: reading must not modify the file (C04_read_changes_nothing)
+            out["file_modified_by_read"] = True
         return out
 
     def term_one(self, c, out):
-        if "write_err" in out or "offset_mismatch" in out:
+        if "write_err" in out or "offset_mismatch" in out or "file_modified_by_read" in out:
             return "3"
         return "v_sfile2 %s %s %s %s %s" % (cbyte(c["delim"]), case_table(c),
                                             chex(bytes.fromhex(out["text"])), chdr(out["hdr"]), cout(out["read"]))
@@ -501,6 +503,8 @@ class RecfileRT(_Seq, _Base):
         rkw = {"delim": c["delim"]}
         if api.get("nrows"):
             rkw["nrows"] = len(c["rows"])
+        if api.get("nrows_less"):                     # fewer rows than the file holds: the first k rows
+            rkw["nrows"] = int(api["nrows_less"])
         if api.get("defaults"):
             rkw["offset"] = 0
         dt = a.dtype.descr if api.get("dtype") == "descr" else a.dtype
@@ -524,16 +528,152 @@ class RecfileRT(_Seq, _Base):
             out["read"] = ["ok", canon_array(res)]
         except Exception as e:  # noqa
             out["read"] = ["err"] + _err(e)
+        if open(fn, "rb").read().hex() != out["text"]:   # frame: reading must not modify the file
+            out["file_modified_by_read"] = True
         return out
 
     def term_one(self, c, out):
-        if "write_err" in out:
+        if "write_err" in out or "file_modified_by_read" in out:
             return "3"
+        k = (c.get("api") or {}).get("nrows_less")
+        if k:
+            return "v_recfile_n %s %s %s %s %s" % (cbyte(c["delim"]), case_table(c), core.cz(k),
+                                                   chex(bytes.fromhex(out["text"])), cout(out["read"]))
         return "v_recfile2 %s %s %s %s" % (cbyte(c["delim"]), case_table(c),
                                            chex(bytes.fromhex(out["text"])), cout(out["read"]))
 
     def show_one(self, c):
+        k = (c.get("api") or {}).get("nrows_less")
+        if k:
+            return "m_recfile_n %s %s %s" % (cbyte(c["delim"]), case_table(c), core.cz(k))
         return "m_recfile2 %s %s" % (cbyte(c["delim"]), case_table(c))
+
+
+class RawReadRT(Entry):
+    """Recfile(mode='r', dtype=, delim=, nrows=).read() on hand-made, possibly malformed text: empty fields (-> NaN for floats,
+    RuntimeError for integers), files cut off anywhere, blanks around numbers, '+' signs, leading zeros, garbage bytes,
+    missing final newline.  Only the correspondence model <-> implementation is judged (verdict 0 or 1): it ties the
+    scanner theorems of ScanSpec.v (acceptance/rejection on arbitrary text) to the code that runs."""
+    name = "rawread"
+    search_rounds = 0
+    work = "/var/tmp"
+
+    def cases(self, ctx, round=0):
+        return gen_raw_cases(ctx, round)
+
+    def nontrivial(self, c, out):
+        return c.get("mal") not in (None, "none")
+
+    def impl(self, c):
+        import esutil.recfile as recfile
+        fn = _tmp(self.work, "w")
+        try:
+            with open(fn, "wb") as fh:
+                fh.write(bytes.fromhex(c["text"]))
+            try:
+                with recfile.Recfile(fn, mode="r", dtype=np_dtype(c), delim=c["delim"], nrows=c["nrows"]) as r:
+                    return {"read": ["ok", canon_array(r.read())]}
+            except Exception as e:  # noqa
+                return {"read": ["err"] + _err(e)}
+        finally:
+            if os.path.exists(fn):
+                os.remove(fn)
+
+    def _args(self, c):
+        flds = "[%s]" % "; ".join(cfld(f["name"], f["t"], "<", f["shape"]) for f in c["fields"])
+        return "%s %s %s %s" % (cbyte(c["delim"]), flds, core.cz(c["nrows"]), chex(bytes.fromhex(c["text"])))
+
+    def term(self, c, out):
+        return "v_rawread %s %s" % (self._args(c), cout(out["read"]))
+
+    def show(self, c):
+        return "m_rawread %s" % self._args(c)
+
+    def classify(self, c, out, v):
+        return None
+
+
+def cell_text_py(t, el):
+    if t[0] == "S":
+        return bytes.fromhex(el)
+    if t[0] == "f":
+        return fmt_oracle(t, el).encode()
+    return str(int(el)).encode()
+
+
+def gen_raw_cases(ctx, round):
+    r = ctx.rng
+    cs = []
+    n = ctx.n(78, 1200) if round == 0 else ctx.n(60, 300)
+    mals = ["none", "empty-float", "empty-int", "truncate", "blank-before-number", "blank-before-delim", "plus-sign",
+            "leading-zeros", "garbage", "no-final-newline", "extra-newlines", "drop-last-field", "empty-first-field"]
+    for i in range(n):
+        d = r.choice(DELIMS)
+        nf = r.randint(1, 4)
+        fields = []
+        for k in range(nf):
+            t = r.choice(INT_T + FLT_T + ["S%d" % r.randint(1, 5)])
+            fields.append({"name": "f%d" % k, "t": t, "o": "<", "shape": [] if r.random() < 0.8 else [2]})
+        nrows = r.randint(1, 4)
+        mal = mals[i % len(mals)]
+        cells = []                                   # [row][flat cell] = (type, bytes)
+        for _ in range(nrows):
+            row = []
+            for f in fields:
+                for _k in range(nel(f["shape"])):
+                    t = f["t"]
+                    if t[0] == "S":
+                        el = plain_str(r, esz(t))
+                    elif t == "f8":
+                        el = gen_f8(r)
+                    elif t == "f4":
+                        el = gen_f4(r)
+                    else:
+                        el = gen_int(r, t)
+                    row.append([t, cell_text_py(t, el)])
+            cells.append(row)
+        num = [(i2, j) for i2, row in enumerate(cells) for j, (t, _) in enumerate(row) if t[0] != "S"]
+        pick = lambda pred: r.choice([x for x in num if pred(cells[x[0]][x[1]][0])] or [None])    # noqa
+        if mal == "empty-float":
+            x = pick(lambda t: t[0] == "f")
+            if x:
+                cells[x[0]][x[1]][1] = b""
+        elif mal == "empty-int":
+            x = pick(lambda t: t[0] in "iu")
+            if x:
+                cells[x[0]][x[1]][1] = b""
+        elif mal == "empty-first-field":
+            if cells[0][0][0][0] != "S":
+                cells[0][0][1] = b""
+        elif mal == "blank-before-number" and num:
+            x = r.choice(num)
+            cells[x[0]][x[1]][1] = r.choice([b" ", b"  ", b"\t"] if d != "\t" else [b" ", b"  "]) + cells[x[0]][x[1]][1]
+        elif mal == "blank-before-delim" and num and d not in " ":
+            x = r.choice(num)
+            cells[x[0]][x[1]][1] = cells[x[0]][x[1]][1] + r.choice([b" ", b"  "])
+        elif mal == "plus-sign" and num:
+            x = r.choice(num)
+            if not cells[x[0]][x[1]][1].startswith((b"-", b"n", b"i")):
+                cells[x[0]][x[1]][1] = b"+" + cells[x[0]][x[1]][1]
+        elif mal == "leading-zeros" and num:
+            x = r.choice(num)
+            v = cells[x[0]][x[1]][1]
+            if v[:1].isdigit():
+                cells[x[0]][x[1]][1] = b"00" + v
+        elif mal == "garbage" and num:
+            x = r.choice(num)
+            cells[x[0]][x[1]][1] = r.choice([b"?", b"#", b"@5", b"~"])
+        elif mal == "drop-last-field":
+            cells[-1] = cells[-1][:-1] or cells[-1]
+        text = b"".join(d.encode().join(v for _, v in row) + b"\n" for row in cells)
+        if mal == "truncate" and len(text) > 1:
+            text = text[:r.randint(0, len(text) - 1)]
+        elif mal == "no-final-newline":
+            text = text[:-1]
+        elif mal == "extra-newlines":
+            text = text + b"\n\n"
+        cs.append({"delim": d, "fields": fields, "nrows": nrows, "text": text.hex(), "mal": mal, "family": "raw:" + mal})
+    return cs
 
 
 # ----------------------------------------------------------------------------------------------
@@ -604,6 +744,7 @@ def gen_f4(r):
 
 
 ALPHA = b"abXY019 _-+.e,:;|\t\x00n"
+ASCII_NO_EOL = bytes(b for b in range(128) if b not in (10, 13))
 
 
 def gen_str(r, w, delim):
@@ -624,8 +765,12 @@ def gen_str(r, w, delim):
         s = r.choice([b"1e5", b"nan", b"inf", b"-1", b"0x1", b"12", b"+3.5", b"1,2", b".", b"-", b"infinity", b"NaN", b"1e", b"7"])
     elif k < 0.66:
         s = r.choice([d * w, b"\x0b" + b"a" * w, b"\x0c", b"a\x00b", b"\x00a", b"~!@#$%^&*()[]"])
-    else:
+    elif k < 0.80:
         s = bytes(r.choice(ALPHA) for _ in range(r.randint(0, w)))
+    else:
+        # the whole range "ASCII free of newline characters": every 7-bit code except \n and \r, control characters included
+        # (\x0b \x0c \x1c-\x1e are line boundaries for str.splitlines but not for the file iterator; \x00..\x1f, \x7f)
+        s = bytes(r.choice(ASCII_NO_EOL) for _ in range(r.randint(1, w)))
     s = s[:w].replace(b"\n", b"?").replace(b"\r", b"?")
     return s.ljust(w, b"\x00").hex()
 
@@ -827,7 +972,7 @@ def gen_cases(ctx, round, entry):
                     cs.append({"delim": r.choice(DELIMS), "fields": f, "rows": rows, "family": "float-decades"})
         # -- strings: every width, adversarial contents, numeric neighbours on both sides
         for w in range(1, 13):
-            for d in DELIMS:
+            for d in (DELIMS if not q else r.sample(DELIMS, 3)):
                 for safe in ((True, False) if not q else (True,)):
                     f = [{"name": "a", "t": "S%d" % w, "o": "|", "shape": []}, {"name": "n", "t": r.choice(INT_T + FLT_T), "o": r.choice("<>"), "shape": []},
                          {"name": "b", "t": "S%d" % w, "o": "|", "shape": [2]}]
@@ -889,6 +1034,13 @@ def gen_cases(ctx, round, entry):
             c = mk_case(r, f, r.randint(2, 6), d, "array-forms", True)
             c["form"] = ["reversed"]
             cs.append(c)
+        if entry == "recfile":
+            for i in range(4 if q else 12):
+                f = [rnd_field(r, k) for k in range(r.randint(1, 4))]
+                n0 = r.randint(2, 6)
+                c = mk_case(r, f, n0, DELIMS[i % len(DELIMS)], "api-forms", True)
+                c["api"] = {"nrows_less": r.randint(1, n0 - 1)}
+                cs.append(c)
         for i, api in enumerate((apis_s if entry == "sfile" else apis_r) * (1 if q else 3)):
             f = [rnd_field(r, k) for k in range(r.randint(2, 4))]
             c = mk_case(r, f, r.randint(1, 5), DELIMS[(i + 2) % len(DELIMS)], "api-forms", True)
@@ -906,6 +1058,15 @@ def gen_cases(ctx, round, entry):
             if nrows in (16385, 32769):
                 c["view"] = [1, 2]
             cs.append(c)
+        # -- control characters in strings (line boundaries of str.splitlines that are NOT line ends of a file: \x0b \x0c \x1c \x1d \x1e)
+        for d in DELIMS:
+            for ctl in (b"\x0b", b"\x0c", b"\x1c", b"\x1d", b"\x1e", b"\x1f", b"\x7f", b"\x01"):
+                if q and r.random() < 0.6:
+                    continue
+                w = r.randint(2, 6)
+                f = [{"name": "s", "t": "S%d" % w, "o": "|", "shape": []}, {"name": "k", "t": r.choice(INT_T), "o": "<", "shape": []}]
+                rows = [[[(b"a" + ctl + bytes(r.choice(b"bc") for _ in range(w))) [:w].hex()], [gen_int(r, f[1]["t"])]] for _ in range(r.randint(1, 4))]
+                cs.append({"delim": d, "fields": f, "rows": rows, "family": "control-chars"})
         # -- sequences (history dimension)
         cs.extend(gen_sequences(r, q, entry))
         # -- many rows
@@ -913,7 +1074,7 @@ def gen_cases(ctx, round, entry):
             f = [{"name": "i", "t": "i8", "o": ">", "shape": []}, {"name": "s", "t": "S2", "o": "|", "shape": []},
                  {"name": "x", "t": "f4", "o": "<", "shape": [2]}]
             cs.append(mk_case(r, f, nrows, r.choice(DELIMS), "many-rows", True))
-    n = ctx.n(160, 3000) if round == 0 else ctx.n(150, 1500)
+    n = ctx.n(120, 3000) if round == 0 else ctx.n(150, 1500)
     for _ in range(n):
         nf = r.choice([1, 2, 2, 3, 3, 4, 5, 6])
         fields = [rnd_field(r, i) for i in range(nf)]
@@ -982,6 +1143,11 @@ def differential(ctx, entries, replay_case=None):
                 ctx.count("verdict:%s:%d%s" % (ent.name, v & 3, ":known-class" if v & 4 else ""))
                 ctx.count("sequence:%s:%d-steps%s" % (c.get("seq", "?"), len(c["steps"]), ":reused-object" if c.get("reuse") else ""))
                 continue
+            if "rows" not in c:                      # raw-read cases: text + dtype, no table
+                ctx.case([ent.name, c], ent.nontrivial(c, o), ent.family(c), sample={"entry": ent.name, "input": c, "impl_output": o})
+                ctx.count("verdict:%s:%d" % (ent.name, v & 3))
+                ctx.count("raw_result:%s" % (o["read"][0] if o["read"][0] == "ok" else o["read"][1]))
+                continue
             big = len(c["rows"]) > 50
             ctx.case([ent.name, c], ent.nontrivial(c, o), ent.family(c),
                      sample={"entry": ent.name, "input": c if not big else dict(c, rows=c["rows"][:3], rows_total=len(c["rows"])),
@@ -1044,7 +1210,7 @@ def differential(ctx, entries, replay_case=None):
         ctx.count("wall_s:" + ent.name, round(time.time() - t0, 1))
 
 
-ENTRIES = [SFileRT(), RecfileRT()]
+ENTRIES = [SFileRT(), RecfileRT(), RawReadRT()]
 
 TRUSTED = [
     "Coq 8.16.1 kernel (coqc, vm_compute; no native_compute); all C04 theorems are closed under the global context (no axioms)",
